@@ -93,14 +93,17 @@ func ruleBootstrapTxn(c *Ctx) {
 	getEnd := F(P.Method(pb+"metapb", "Region", "GetEndKey"))
 	getPeers := F(P.Method(pb+"metapb", "Region", "GetPeers"))
 	ar := c.Prop + "/bootstrap-payload"
-	c.atomRejects(ar, cb, "store id == 0", relMatcher("==", resultOfCall(storeGetID), isConstInt(0)), errReturn)
-	c.atomRejects(ar, cb, "region id == 0", relMatcher("==", resultOfCall(regionGetID), isConstInt(0)), errReturn)
-	c.atomRejects(ar, cb, "peer id == 0", relMatcher("==", resultOfCall(peerGetID), isConstInt(0)), errReturn)
-	c.atomRejects(ar, cb, "len(start key) > 0", relMatcher(">", lenOf(resultOfCall(getStart)), isConstInt(0)), errReturn)
-	c.atomRejects(ar, cb, "len(end key) > 0", relMatcher(">", lenOf(resultOfCall(getEnd)), isConstInt(0)), errReturn)
-	c.atomRejects(ar, cb, "len(peers) != 1", relMatcher("!=", lenOf(resultOfCall(getPeers)), isConstInt(1)), errReturn)
-	c.atomRejects(ar, cb, "peer.StoreId != store.Id", relMatcher("!=", resultOfCall(peerGetStore), resultOfCall(storeGetID)), errReturn)
-	c.atomRejects(ar, cb, "store == nil", relMatcher("==", anyVal, isNilConst), errReturn)
+	c.need(ar, cb, "accepting return", func(x ssa.Instruction) bool { r, ok := x.(*ssa.Return); return ok && retIsNilErr(r) }, []Ev{
+		guardRel("store != nil", "!=", resultOfCall(F(P.Method(pb+"pdpb", "BootstrapRequest", "GetStore"))), isNilConst),
+		guardRel("region != nil", "!=", resultOfCall(F(P.Method(pb+"pdpb", "BootstrapRequest", "GetRegion"))), isNilConst),
+		guardRel("store id != 0", "!=", resultOfCall(storeGetID), isConstInt(0)),
+		guardRel("region id != 0", "!=", resultOfCall(regionGetID), isConstInt(0)),
+		guardRel("peer id != 0", "!=", resultOfCall(peerGetID), isConstInt(0)),
+		guardRel("len(start key) == 0", "<= ==", lenOf(resultOfCall(getStart)), isConstInt(0)),
+		guardRel("len(end key) == 0", "<= ==", lenOf(resultOfCall(getEnd)), isConstInt(0)),
+		guardRel("len(peers) == 1", "==", lenOf(resultOfCall(getPeers)), isConstInt(1)),
+		guardRel("peer.StoreId == store.Id", "==", resultOfCall(peerGetStore), resultOfCall(storeGetID)),
+	}, all, "a bootstrap payload is accepted only if store and region are present with non-zero ids, the range is the whole key space and the single peer lives on that store with a non-zero id")
 
 	// the RPC refuses when a cluster is already running
 	h := P.Method("server", "Server", "Bootstrap")
